@@ -399,6 +399,14 @@ impl StarterProbe {
     pub fn note_client_routes(&mut self, pairs: &[(String, u32)]) {
         self.0.plan().note_client_routes(pairs.iter().map(|(c, h)| (c.clone(), host(*h))).collect())
     }
+    /// The same note through `MetadataWorker::handle_server_event` (CLIENT_ROUTES_CHANGE:UPDATE_NODES event).
+    pub fn client_routes_event(&mut self, pairs: &[(String, u32)]) {
+        self.0.plan().client_routes_event(pairs.iter().map(|(c, h)| (c.clone(), host(*h))).collect())
+    }
+    /// A TOPOLOGY_CHANGE event through `MetadataWorker::handle_server_event`.
+    pub fn topology_event(&mut self) {
+        self.0.plan().topology_event()
+    }
     /// `PendingFetches::start_due_fetches(plan, ..)`.
     pub fn start_due(&mut self) {
         self.0.start_due()
